@@ -296,5 +296,7 @@ def finish(pid, tier, obligations, t0, level="model_checking",
     sys.stdout.flush()
     if machinery_error:
         print("MACHINERY-ERROR property=%s %s" % (pid, machinery_error))
-        return 3
+        # a natively reproduced violation stands on its own: it is reported (exit 1) even when
+        # another part of the machinery could not run
+        return 1 if nviol else 3
     return 1 if nviol else 0
